@@ -105,21 +105,23 @@ def gen_directive(rng, wild):
     lm = ""
     if conv in "diouxX":
         lm = rng.choice(["", "", "", "l", "ll", "z", "t", "j"])
+        if rng.random() < 0.12:
+            lm = rng.choice(["h", "hh"])           # supported since fix C14-6: the argument is an int
         if rng.random() < 0.03:
-            lm = rng.choice(["h", "hh", "q", "L"])
+            lm = rng.choice(["q", "L"])
             d["supported"] = False
     elif rng.random() < 0.03 and conv not in "cs":
-        lm = rng.choice(["L", "h"])
+        lm = "L"
         d["supported"] = False
     t += lm + conv
     dl += len(lm) + 1
     d["text"] = t
     d["dlen"] = dl
-    if not d["supported"] and lm in ("h", "hh", "q", "L"):
+    if not d["supported"] and lm in ("q", "L"):
         # the scanners leave the directive at the unknown letter: no argument is taken
         return d
     if conv in "diouxX":
-        if lm == "":
+        if lm in ("", "h", "hh"):
             v = rng.choice(INT_EXT) if rng.random() < 0.7 else rng.randint(-2 ** 31, 2 ** 31 - 1)
             d["args"].append("i%d" % v)
             d["need"] += 4
@@ -210,7 +212,7 @@ def scan_args(fmt, rng):
         tl = tll = False
         while i < n:
             c = chr(fmt[i])
-            if c in "#- +'I.0123456789":
+            if c in "#- +'Ih.0123456789":
                 i += 1
             elif c == "*":
                 toks.append("i%d" % rng.choice([0, 3, -3, 40, 70000, -70000]))
@@ -302,6 +304,9 @@ def corpus():
        maxdlen=24)
     rt(":%*d:", ["i8", "i96"])
     rt("%.*d|", ["i-1", "i5"], negprec=True)
+    rt("%5.*d|%.*s|%-*.*f", ["i-1", "i5", "i-7", "s" + hx("abcdef"), "i-9", "i-2", "d400921fb54442d18"], negprec=True)
+    rt("v=%hd|%d", ["i5", "i7"])
+    rt("%hu %s %hhx %hhd", ["i80", "s" + hx("name"), "i511", "i-129"])
     rt("%0000000000000000000000005d", ["i7"], maxdlen=27)
     rt("%*.*lld", ["i-100000", "i100000", "q5"], n=8, maxdlen=19)
     rt("%-+#0 '*.*lld", ["i-100000", "i100000", "q5"], maxdlen=25)
@@ -372,8 +377,6 @@ def monitor(m, lines):
         m["fmt"], m["args"], out[:ret - 1][:80], ref[1][:80], m["need"], m["max_len"], ref[0], n)
     if m["maxdlen"] > MINI - 1:
         return what, F_MINIFMT
-    if m["negprec"]:
-        return what, F_NEGPREC
     return what, None
 
 
@@ -400,13 +403,13 @@ def judge(m, impl, mod):
     iref = [l for l in lines if l.startswith("ref ")]
     mref = [l for l in mod[0] if l.startswith("ref ")]
     specdiff = None
-    if m["kind"] == "roundtrip" and m["supported"] and not m["nullprec"] and not m["negprec"] and iref and mref \
+    if m["kind"] == "roundtrip" and m["supported"] and not m["nullprec"] and iref and mref \
             and mref[0] != "ref ?" and iref[0] != mref[0]:
         specdiff = (iref[0][:200], mref[0][:200])
     # the theorem's own hypothesis (extracted wf_go / ser_data): covered format, record fits, text fits => text equal
     wf = [l for l in mod[0] if l.startswith("wf ")]
     des = [l for l in lines if l.startswith("des ")]
-    if not msg and m["kind"] == "roundtrip" and wf and iref and des and not m["negprec"] and not m["nullprec"] \
+    if not msg and m["kind"] == "roundtrip" and wf and iref and des and not m["nullprec"] \
             and "\a" not in m["fmt"]:
         covered, need = int(wf[0].split()[1]), int(wf[0].split()[2])
         rl, rt = int(iref[0].split(" ")[1]), L.unhx(iref[0].split(" ")[2])
@@ -551,7 +554,8 @@ def run(ctx):
                             "when record and text fit); ASan/UBSan with exact-size heap buffers for every byte "
                             "outside the buffers",
                  "presupposes_fixes": ["fixes/C14-1-serialize-directive-state.patch", "fixes/C14-2-serialize-string-room.patch",
-                                       "fixes/C14-3-serialize-xc-last.patch", "fixes/C14-4-deserialize-bounds.patch"]}
+                                       "fixes/C14-3-serialize-xc-last.patch", "fixes/C14-4-deserialize-bounds.patch",
+                                       "fixes/C14-5-negative-star-precision.patch", "fixes/C14-6-short-modifiers.patch"]}
     res.assumptions = ["libc's rendering of one conversion (snprintf with a one-directive format) is an oracle recorded "
                        "from the implementation run; contract used by the bounds theorems: at most n bytes are written",
                        "va_arg with a mismatching type is undefined in C: the round-trip theorem assumes the arguments "
